@@ -144,6 +144,7 @@ def shards(tier, seed):
         for tname in ("fit", "2048", "None"):
             sh.append((tier, seed, si, tname))
     sh.append((tier, seed, "selfcheck", None))
+    sh.append((tier, seed, "transport", None))
     return sh
 
 
@@ -188,6 +189,8 @@ def run_shard(shard):
     res = {"states": 0, "transitions": 0, "graphs": 0, "violations": [], "samples": [], "counters": {}, "delivering_edges": 0}
     if si == "selfcheck":
         return selfcheck(tier, res)
+    if si == "transport":
+        return transport_check(tier, res)
     text, exp, label = corpus(tier, seed)[si]
     T = dict(thresholds(exp, text))[tname]
     stats = {"deliv": 0}
@@ -222,6 +225,71 @@ def run_shard(shard):
     res["violations"] = list(sig.values())
     if si < 2 and tname == "fit":
         res["samples"].append({"stream": text, "threshold": T, "messages": [d[0] for _, _, d in exp], "states": r["states"], "transitions": r["transitions"]})
+    return res
+
+
+def transport_check(tier, res):
+    """the transports between the socket and the Buffer (the anchors tcp.py / tty.py): the byte stream is cut at
+    EVERY position (and fed byte by byte); the messages handed on must not depend on the cut. Streams carry raw
+    UTF-8 and raw ISO-8859-1 characters, which read(1024) may split in the middle of a multi-byte sequence."""
+    from indi.routing import Device, Router
+    from indi.transport.client.tcp import ConnectionHandler as ClientH
+    from indi.transport.server.tcp import ConnectionHandler as ServerH
+
+    from mc.core import vloop as V
+
+    texts = [
+        '<?xml version="1.0"?>\n<getProperties version="1.7" device="T\u00e9l\u00e9scope"/><newTextVector device="D" name="N"><oneText name="a">\u00b0 \u2603 caf\u00e9</oneText></newTextVector>\n<getProperties version="1.7"/>',
+    ]
+    sig = {}
+    for text in texts:
+        for enc in ("utf-8", "latin-1"):
+            data = text.encode(enc, "xmlcharrefreplace")
+            feeds = [[data], [bytes([b]) for b in data]] + [[data[:c], data[c:]] for c in range(1, len(data))]
+            for side in ("client", "server"):
+                for pieces in feeds:
+                    loop = V.VLoop().install()
+                    try:
+                        got = []
+                        ep = V.Endpoint(loop, "x")
+                        if side == "client":
+                            h = ClientH(ep.reader, ep.writer, got.append)
+                        else:
+                            router = Router()
+
+                            class Rec(Device):
+                                def accepts(self, device):
+                                    return True
+
+                                def message_from_client(self, message):
+                                    got.append(message)
+
+                            router.register_device(Rec())
+                            h = ServerH(ep.reader, ep.writer, router)
+                        task = loop.create_task(h.wait_for_messages())
+                        loop.quiesce()
+                        for p in pieces:
+                            ep.feed(p)
+                            loop.quiesce()
+                        res["transitions"] += len(pieces)
+                        res["states"] += 1
+                        kinds = [type(m).__name__ for m in got]
+                        clause = None
+                        if task.done():
+                            exc = task.exception() if not task.cancelled() else None
+                            clause, what = "receive-loop-stopped", "%s handler, %s bytes, pieces %r: %r" % (side, enc, [len(p) for p in pieces][:4], exc)
+                        elif kinds != ["GetProperties", "NewTextVector", "GetProperties"]:
+                            clause, what = "fragmentation-dependent-delivery", "%s handler, %s bytes, pieces %r: delivered %r" % (side, enc, [len(p) for p in pieces][:4], kinds)
+                        if clause:
+                            key = (clause, "transport=%s,%s" % (side, enc))
+                            if key in sig:
+                                sig[key]["count"] += 1
+                            else:
+                                sig[key] = {"clause": clause, "disc": key[1], "what": what, "count": 1, "replay": {"transport": side, "enc": enc, "pieces": [len(p) for p in pieces]}}
+                    finally:
+                        loop.teardown()
+    res["violations"] = list(sig.values())
+    res["counters"]["transport_feeds"] = res["states"]
     return res
 
 
@@ -278,6 +346,9 @@ def finish(tier, seed, m):
 
 
 def replay(rep):
+    if "transport" in rep:
+        r = transport_check("quick", {"states": 0, "transitions": 0, "violations": [], "counters": {}})
+        return [{"clause": v["clause"], "disc": v["disc"], "what": v["what"]} for v in r["violations"]]
     exp = [(e, _t(v), None) for e, v in rep["expected"]]
     chk = make_check(exp, rep["tname"])
     out = []
